@@ -285,6 +285,18 @@ def register_all(M):
         (ra, ma, fa), (rb, mb, fb) = parts
         return SymF(sx.If(c, ra, rb), max(ma, mb), max(fa, fb))
 
+    @reg('harness::vrt::threads')
+    def vrt_threads(I, ext, a):
+        from .sched import Scheduler
+        if I.ctx.concrete is None or True:
+            Scheduler(I, int(a[0]))
+        return UNIT()
+
+    @reg('harness::vrt::sync_point')
+    def vrt_sync_point(I, ext, a):
+        I.sched_point(('sync', a[0] if a else 0))
+        return UNIT()
+
     @reg('harness::vrt::unordered')
     def vrt_unordered(I, ext, a):
         I.model_state['unordered'] = bool(a[0])
@@ -752,10 +764,12 @@ def register_all(M):
 
     @reg_re(r'^std::sync::atomic::Atomic(::)?<.*>::load$')
     def atomic_load(I, ext, a):
+        I.sched_point(('atomic',))
         return at(a).f[0]
 
     @reg_re(r'^std::sync::atomic::Atomic(::)?<.*>::store$')
     def atomic_store(I, ext, a):
+        I.sched_point(('atomic',))
         at(a).f[0] = a[1]
         return UNIT()
 
@@ -771,6 +785,7 @@ def register_all(M):
 
     @reg_re(r'^std::sync::atomic::Atomic(::)?<.*>::(fetch_add|fetch_sub|fetch_max|fetch_min|swap|fetch_and|fetch_or)$')
     def atomic_rmw(I, ext, a):
+        I.sched_point(('atomic',))
         o = at(a)
         old = o.f[0]
         op = ext['dname'].rsplit('::', 1)[1]
@@ -798,6 +813,7 @@ def register_all(M):
 
     @reg_re(r'^std::sync::atomic::Atomic(::)?<.*>::(compare_exchange|compare_exchange_weak|compare_and_swap)$')
     def atomic_cas(I, ext, a):
+        I.sched_point(('atomic',))
         o = at(a)
         old = o.f[0]
         exp, new = a[1], a[2]
@@ -849,7 +865,7 @@ def register_all(M):
                 return None
             if lk.writer == me or me in lk.readers:
                 I.deadlock('thread %d re-acquires a %s it already holds' % (me, lk.kind))
-            I.block_on(lk)
+            I.block_on(lk, mode)
         if mode == 'read':
             lk.readers.append(me)
         else:
@@ -1731,12 +1747,16 @@ def register_batch2(M):
             f = a[1]
             ts = targs(ext)
             ft = P.tys[ts[1]]
-            if ft['kind'] == 'fndef':
-                v = I.call_fn(ft['inst'], [])
-            elif ft['kind'] == 'closure':
-                v = I.call_fn(ft['call_once'], [f, Agg([])], RUST_CALL)
-            else:
-                raise Unsupported('lazy initialiser of type %s' % ft['str'])
+            I.model_state['no_preempt'] = I.model_state.get('no_preempt', 0) + 1
+            try:
+                if ft['kind'] == 'fndef':
+                    v = I.call_fn(ft['inst'], [])
+                elif ft['kind'] == 'closure':
+                    v = I.call_fn(ft['call_once'], [f, Agg([])], RUST_CALL)
+                else:
+                    raise Unsupported('lazy initialiser of type %s' % ft['str'])
+            finally:
+                I.model_state['no_preempt'] -= 1
             ent = (Cell(v, 'lazy'), lz.c)
             st[key] = ent
         return Ptr(ent[0], 0)
@@ -1751,10 +1771,14 @@ def register_batch2(M):
         if not o.done:
             o.done = True
             ft = P.tys[targs(ext)[0]]
-            if ft['kind'] == 'closure':
-                I.call_fn(ft['call_once'], [a[1], Agg([])], RUST_CALL)
-            else:
-                I.call_fn(ft['inst'], [])
+            I.model_state['no_preempt'] = I.model_state.get('no_preempt', 0) + 1
+            try:
+                if ft['kind'] == 'closure':
+                    I.call_fn(ft['call_once'], [a[1], Agg([])], RUST_CALL)
+                else:
+                    I.call_fn(ft['inst'], [])
+            finally:
+                I.model_state['no_preempt'] -= 1
         return UNIT()
 
     @reg('std::sync::Once::is_completed')
